@@ -8,6 +8,8 @@ sub-checks
   ss        Simion-Schmidt on EVERY permutation (inside the domain: image avoids 132 and has the
             same left-to-right minima, inverse undoes it; outside: ValueError), both directions;
             per length: image set = all 132-avoiders (bijection)
+  ss_long   the same map beyond the exhaustive lengths on the complete structured family "at most k
+            left-to-right minima": forward image = reference image, class, minima, inverse undoes
   families  smooth, forest_like, baxter, simsun, dihedral, in_alternating_group,
             yt_perm_avoids_22/32, av_231_and_mesh, hard_mesh against definitions
   deep      independent second definitions that are too slow for the long lengths: Greene's theorem
@@ -303,6 +305,69 @@ def ss_levels(ctx, n, fwd, inv):
 
 
 # --------------------------------------------------------------------------------------------
+# Simion-Schmidt on long inputs: the structured family "few left-to-right minima"
+# --------------------------------------------------------------------------------------------
+# The map is driven by the left-to-right minima only, so beyond the exhaustive lengths the family
+# "ALL 123-avoiders of length n with at most k left-to-right minima" (Narayana many) together with
+# "ALL 132-avoiders with at most k minima" (their reference images) is enumerated completely.
+
+def check_ss_long(part, Perm, SS, p, after=None):
+    """p: a 123-avoider.  Forward image = reference image (a 132-avoider with the same minima),
+    inverse of the image = p; both directions also judged without the reference map."""
+    p = tuple(p)
+    q = D.ss_forward_ref(p)
+    ok = True
+    for inverse, x, want, bad in ((False, p, q, D.has_132), (True, q, p, D.has_123)):
+        case = _case(x, after, inverse=inverse)
+        try:
+            got = _guarded_call(SS, Perm(x), inverse=inverse)
+        except _Timeout:
+            part.violation("ss_long", case, {"no answer within %g s of CPU time" % CALL_CPU_LIMIT: True})
+            ok = False
+            continue
+        except Exception as exc:  # noqa
+            part.violation("ss_long", case, {"in the domain, but raised": repr(exc)})
+            ok = False
+            continue
+        g = tuple(got)
+        if not isinstance(got, Perm) or sorted(g) != list(range(len(x))):
+            part.violation("ss_long", case, {"not a permutation of the same length": repr(got)})
+            ok = False
+        elif D.ltr_minima(g) != D.ltr_minima(x):
+            part.violation("ss_long", case, {"left-to-right minima moved": list(g)})
+            ok = False
+        elif bad(g):
+            part.violation("ss_long", case, {"image is not in the target class": list(g)})
+            ok = False
+        elif g != want:
+            part.violation("ss_long", case, {"expected": list(want), "got": list(g)})
+            ok = False
+    return q, ok
+
+
+def shard_ss_long(shard):
+    n, k, first = shard
+    Perm = _P()
+    from permuta.permutils.bijections import Bijections
+    SS = Bijections.simion_and_schmidt
+    part = Partial()
+    fam = D.avoiders_123_with_minima(n, k, first)
+    images = set()
+    prev = None
+    for p in fam:
+        assert not D.has_123(p), p                    # the family generator (reference) is right
+        q, _ = check_ss_long(part, Perm, SS, p, prev)
+        assert not D.has_132(q) and D.ltr_minima(q) == D.ltr_minima(p) and D.ss_inverse_ref(q) == p, p
+        images.add(q)
+        prev = p
+        part.add(1, 1 if q != p else 0)
+        if n == 16 and k == 3 and first == 4 and q != p:
+            part.sample({"sub": "ss_long", "perm": p, "image": q, "ltr_minima": D.ltr_minima(p)}, cap=1)
+    assert len(images) == len(fam)                    # reference map injective on the family
+    return part, (n, k, len(fam))
+
+
+# --------------------------------------------------------------------------------------------
 # families
 # --------------------------------------------------------------------------------------------
 
@@ -445,7 +510,7 @@ def run(ctx, only=None):
     ctx.rule = ("one case = one permutation with every operator/predicate of the sub-check evaluated "
                 "on it (each permutation once per sub-check). non-trivial: ops - length>=3 and not "
                 "sorted by one stack pass; ss - the permutation is in the domain of at least one "
-                "direction and is moved by the map; families - length>=3 and member of some but not "
+                "direction and is moved by the map (same for ss_long); families - length>=3 and member of some but not "
                 "all of the ten families; deep - tableau has a second row of length>=2")
     ctx.assumptions = [
         "reference definitions in mc/ref_c12.py; the quicksort operator is the one described in the "
@@ -501,6 +566,23 @@ def run(ctx, only=None):
                             "non-domain); bijection per length" % n_ss)
         ctx.section("ss", evaluations=ctx.evals - e0,
                     domain_sizes=[len(fwd[n]) for n in sorted(fwd)])
+    if want("ss_long"):
+        e0 = ctx.evals
+        # (max length, max number of left-to-right minima); lengths <= n_ss are covered by "ss"
+        plan = [(20, 3)] if quick else [(24, 3), (20, 4)]
+        todo = sorted({(n, k) for nmax, kmax in plan for n in range(1, nmax + 1)
+                       for k in range(1, min(kmax, n) + 1)})
+        shards = [(n, k, first) for n, k in todo for first in range(k - 1, n if k > 1 else 1)]
+        res = ctx.pmap(shard_ss_long, shards)
+        sizes = {}
+        for n, k, m in res:
+            sizes[(n, k)] = sizes.get((n, k), 0) + m
+        for (n, k), m in sizes.items():
+            assert m == D.narayana(n, k), ("family size vs Narayana number", n, k, m)
+        ctx.bounds["ss_long"] = ("all 123-avoiders (forward) and all 132-avoiders (inverse) with " +
+                                 " / ".join("at most %d left-to-right minima up to length %d" % (k, n)
+                                            for n, k in plan))
+        ctx.section("ss_long", evaluations=ctx.evals - e0, family_size=sum(sizes.values()))
     if want("families"):
         e0 = ctx.evals
         res = ctx.pmap(shard_families, shards_upto(n_fam, 630 if quick else 1260))
@@ -559,6 +641,11 @@ def replay(ctx, rec):
             check_ops(part, Perm, q, aft)
         elif sub == "ss":
             check_ss(part, Perm, SS, q, aft)
+        elif sub == "ss_long":
+            # the recorded permutation is the argument of the failing direction
+            # (a 132-avoider when the inverse failed); the predecessor is always a 123-avoider
+            x = D.ss_inverse_ref(q) if (q is p and case["inverse"]) else q
+            check_ss_long(part, Perm, SS, x, aft)
         elif sub == "families":
             check_families(part, props, q, Perm, aft)
         elif sub == "deep":
